@@ -24,6 +24,26 @@ CLAIMED = {
             "that an interrupted write leaves a prefix is OS behaviour (sampled); json.loads rejecting unbalanced text is a contract (tested on every prefix)", "7 C09"),
     "C10": ("Lean theorem history_independent: for every operation sequence (induction, no length bound) every open returns the uncached group of its own rpc; inv_step; writes; real-file histories vs the flow model and vs fresh uncached opens, directory hashes, option-dict deep copies",
             "caller-dict aliasing is only observed by the harness", "7 C10"),
+    "C03": ("Lean theorems line_metadata_11/15 (for ANY number n>=1 of line records, every file content: the image group is the frozen documented group, induction over n), header_attrs (present exactly when non-blank, all 32 combinations), field_positions (golden offsets/widths/scale factors/units), line_times; layout + transformer correspondence; field-by-field end-to-end oracle",
+            "numpy dtype inference / datetime64 override and IEEE scaling are third-party (scaling checked exactly by the harness)", "7 C03"),
+    "C04": ("Lean theorems field_positions (every live field of the fixed-size leader records at its golden offset/width/conversion), dataset_summary / radiometric_data / transformations (for EVERY file content the group is the frozen documented tree evaluated on the parsed record: parse -> shape -> naturality -> kernel computation on syntax), framing, numeric_text; leader correspondence; oracle over all ~900 fields at once",
+            "partial: attitude, data-quality, platform-position and map-projection pipelines only by layout theorems + correspondence + oracle; float()/IEEE are contracts", "7 C04"),
+    "C12": ("Lean theorems documented_trees_well_typed / image_group_well_typed (any n) / typing_is_shape_only, declared_shape (from pixel_fidelity), real_dtypes (re-read from source); oracle over dtype/shape/nbytes/repr/attribute types/selection shapes",
+            "numpy's dtype inference of python lists is third-party", "7 C12"),
+    "C13": ("Lean theorems imagery_children (no image dropped or swapped when names are distinct), name_collision, group_names_injective, roles_independent_of_line_order (permutation invariance), root_children; oracle over 1-8 images x polarisation x scan x summary orders",
+            "DataTree.from_dict / set_coords are xarray's", "7 C13"),
+    "C14": ("Lean theorems line_sound / line_complete (exact line grammar incl. lazy matching, values with = and quotes), errors_exact, crlf, perm_invariant on the regex regenerated from CPython's own AST; summary correspondence; whole-product oracle with permuted/CRLF/corrupted summaries",
+            "the backtracking matcher model is tied to CPython's re by correspondence", "7 C14"),
+    "C15": ("Lean theorems product_id_total (3600 ids) / product_id_sound, scene_id_total / scene_id_sound, valid_dates, scan_info_exact, group_name_injective, documented_tables: regex classes and code tables regenerated from the source agree; matcher soundness w.r.t. a declarative regex semantics; decoder correspondence on the full cross product",
+            "strptime %y%m%d century pivot is a contract", "7 C15"),
+    "C16": ("Lean theorems root_attrs (for EVERY volume directory that parses, any number of file pointers: root attributes = frozen documented list evaluated on the record), field_positions, framing, padded_text, pipeline_shape; correspondence; oracle",
+            "strptime on non-canonical digit strings not modelled", "7 C16"),
+    "C17": ("Lean theorems line_time / line_time_us / civil_dates / every_day_is_a_date / text_instant for all years 2014-2049 (29 Feb, day 366, last ms) and attitude_one_day_late (negation witness for the attitude clause: known finding); time-decoder correspondence; same-instant oracle",
+            "the property's attitude clause is false for the code (recorded known finding, test suite pins it); timedelta/strptime are contracts", "7 C17"),
+    "C19": ("Lean theorems noninterference (every interleaving, any number of loads), finished_equals_solo, no_deadlock, completes over an interleaving model whose per-load program is the getitem trace; source facts (private handle, per-variable lock) re-read from the AST; deterministic-scheduler oracle enumerating interleavings of real threads",
+            "real schedules / GIL / lock implementation only enumerated at filesystem yield points", "7 C19"),
+    "C20": ("Lean theorems blank_int/float/text, no_derived_attribute, padding_inert (dataset summary: records agreeing on live-field bytes give equal output), live_fields_only, field_locality (13 fixed-size layouts); oracle: nullable fields blanked individually and in subsets, padding rewritten with random content",
+            "line records and dynamic-count records: padding inertness by oracle only", "7 C20"),
     "C18": ("Lean theorem truncated_image (for arbitrary bytes: short file => error or fewer than n records) and complete_image; truncation/missing-file oracle over every record boundary +-1 x rpc",
             "xarray.Dataset's dimension check and promptness are not proved (measured)", "7 C18"),
 }
